@@ -386,6 +386,8 @@ pub struct GenCfg {
     pub centre: i32,
     /// probability (percent) that a constraint is generated such that the hidden witness satisfies it
     pub plant_pct: u64,
+    /// probability (percent) that a variable gets a huge but narrow domain (C16)
+    pub big_pct: u64,
 }
 
 impl Default for GenCfg {
@@ -405,6 +407,7 @@ impl Default for GenCfg {
             view_pct: 40,
             centre: 0,
             plant_pct: 50,
+            big_pct: 0,
         }
     }
 }
@@ -423,7 +426,22 @@ impl<'a> Gen<'a> {
         Gen { rng, cfg, m: Model::default(), witness: vec![] }
     }
 
+    pub fn gen_big_domain(&mut self) -> VarDecl {
+        const CENTRES: [i64; 12] = [
+            2147483647, -2147483648, 1073741824, -1073741824, 65536, -65536, 46341, -46341, 715827882, -715827883, 2147483000,
+            -2147483000,
+        ];
+        let c = *self.rng.pick(&CENTRES);
+        let width = self.rng.range(0, 3);
+        let lo = (c + self.rng.range(-3, 3)).clamp(i32::MIN as i64, i32::MAX as i64 - width);
+        let values: Vec<i32> = (lo..=lo + width).map(|v| v as i32).collect();
+        VarDecl { kind: if self.rng.chance(1, 4) { VarKind::Sparse } else { VarKind::Interval }, values }
+    }
+
     pub fn gen_domain(&mut self) -> VarDecl {
+        if self.rng.below(100) < self.cfg.big_pct {
+            return self.gen_big_domain();
+        }
         let r = self.rng.below(100);
         let c = self.cfg.centre;
         let lb = c + self.rng.i32(-6, 5);
@@ -496,6 +514,16 @@ impl<'a> Gen<'a> {
     }
 
     pub fn view_of(&mut self, var: usize) -> View {
+        let v = self.view_of_unchecked(var);
+        // admitted range: every value of a view fits i32 (so only intermediate results can overflow)
+        let (lo, hi) = self.m.view_range(&v);
+        if lo < i32::MIN as i64 || hi > i32::MAX as i64 {
+            return View::of(var);
+        }
+        v
+    }
+
+    fn view_of_unchecked(&mut self, var: usize) -> View {
         if self.rng.below(100) < self.cfg.view_pct {
             let mut scale = self.rng.i32(-3, 3);
             if scale == 0 {
@@ -517,11 +545,13 @@ impl<'a> Gen<'a> {
     /// witness) the view is built to evaluate to it: over a fresh variable whose domain contains
     /// the target, or over an existing variable with a suitable offset.
     fn result_view(&mut self, lo: i64, hi: i64, target: Option<i64>) -> View {
-        let lo = lo.clamp(-40, 40);
-        let hi = hi.clamp(lo, 40).min(lo + 9);
+        let big = self.cfg.big_pct > 0;
+        let lim: i64 = if big { i32::MAX as i64 - 8 } else { 40 };
+        let lo = lo.clamp(-lim, lim);
+        let hi = hi.clamp(lo, lim).min(lo + 9);
         let (lo, hi) = match target {
             Some(t) if t < lo || t > hi => {
-                let t = t.clamp(-60, 60);
+                let t = t.clamp(-lim - if big { 0 } else { 20 }, lim + if big { 0 } else { 20 });
                 (t - 4, t + 4)
             }
             _ => (lo, hi),
@@ -544,10 +574,17 @@ impl<'a> Gen<'a> {
         } else {
             let v = self.view();
             match target {
-                Some(t) if t.abs() < 1000 => {
+                Some(t) if t.abs() < 1000 || big => {
                     // keep the scale, choose the offset so that the witness hits the target
                     let base = v.scale as i64 * self.witness[v.var] as i64;
-                    View { scale: v.scale, offset: (t - base) as i32, var: v.var }
+                    let off = t - base;
+                    let cand = View { scale: v.scale, offset: off.clamp(i32::MIN as i64, i32::MAX as i64) as i32, var: v.var };
+                    let (l, h) = self.m.view_range(&cand);
+                    if off == cand.offset as i64 && l >= i32::MIN as i64 && h <= i32::MAX as i64 {
+                        cand
+                    } else {
+                        v
+                    }
                 }
                 _ => v,
             }
@@ -607,7 +644,8 @@ impl<'a> Gen<'a> {
             s + self.rng.range(-1, 2)
         } else {
             self.rng.range(lo - 1, hi + 1)
-        } as i32;
+        }
+        .clamp(i32::MIN as i64 + 1, i32::MAX as i64 - 1) as i32;
         match which {
             "linle" => Cons::LinLe(ts, c),
             "lineq" => Cons::LinEq(ts, c),
@@ -709,7 +747,17 @@ impl<'a> Gen<'a> {
                 let lo = xs.iter().map(|x| self.m.view_range(x).0).min().unwrap();
                 let hi = xs.iter().map(|x| self.m.view_range(x).1).max().unwrap();
                 let t = self.weval(&xs[i0]);
-                let r = self.result_view(lo, hi, Some(t));
+                let mut r = self.result_view(lo, hi, Some(t));
+                // Known finding (element with index and right-hand side over the same variable):
+                // kept out of the random streams, present in the corpus.
+                let mut guard = 0;
+                while r.var == i.var && guard < 8 {
+                    r = self.result_view(lo, hi, Some(t));
+                    guard += 1;
+                }
+                if r.var == i.var {
+                    return None;
+                }
                 Cons::Element(i, xs, r)
             }
             "alldiff" => Cons::AllDiff(self.views(2, 4)),
